@@ -2,7 +2,14 @@
 """Re-run the checks against the stored corpus of behaviour-preserving refactorings (/verif/refactors). Any exit 1 is a
 FALSE ALARM. usage: refcheck.py [pattern]   (4 patches in parallel, each in its own scratch worktree under /tmp/rw)"""
 import concurrent.futures as cf, glob, json, os, re, subprocess, sys
-pat = sys.argv[1] if len(sys.argv) > 1 else ""
+args = [a for a in sys.argv[1:] if not a.startswith("--")]
+pat = args[0] if args else ""
+RETRY = "--retry" in sys.argv  # re-run, one at a time, only the (patch, property) pairs that were not 0 in last_run.json
+ONLY = {}
+if RETRY:
+    last = json.load(open("/verif/refactors/last_run.json"))
+    ONLY = {k: [c for c, rc in v.items() if not c.startswith("_") and rc != 0] for k, v in last.items()}
+    ONLY = {k: v for k, v in ONLY.items() if v}
 idx = json.load(open("/verif/refactors/index.json"))
 byfile = {}
 for f in glob.glob("/verif/evidence/C*.json"):
@@ -26,21 +33,32 @@ def one(it):
         props = set(it.get("first_verdicts", {}).keys()) | ({it["property"]} if it.get("property") else set())
         for fl in files:
             props |= byfile.get(fl, set())
-        out = {}
+        out, why = {}, {}
+        if ONLY.get(name):
+            props = set(ONLY[name])
         for c in sorted(props):
             x = subprocess.run(["./check", c], cwd="/verif", env=dict(os.environ, VERIF_REPO=wt, VERIF_JOBS="3"), stdout=subprocess.PIPE, stderr=subprocess.PIPE, text=True)
             out[c] = x.returncode
+            if x.returncode != 0:
+                why[c] = [l.strip()[:300] for l in (x.stderr + x.stdout).split("\n") if l.startswith(("UNDECIDED", "VIOLATION")) or "failed obligation" in l][:6]
+        if why:
+            out["_why"] = why
         return name, out
     finally:
         subprocess.run(["git", "-C", "/repo", "worktree", "remove", "--force", wt])
 
 
-res = {}
-with cf.ThreadPoolExecutor(max_workers=4) as ex:
-    for name, out in ex.map(one, [i for i in idx if pat in i["patch"]]):
-        res[name] = out
+res = json.load(open("/verif/refactors/last_run.json")) if RETRY else {}
+todo = [i for i in idx if pat in i["patch"] and (not RETRY or i["patch"] in ONLY)]
+with cf.ThreadPoolExecutor(max_workers=1 if RETRY else 4) as ex:
+    for name, out in ex.map(one, todo):
+        if RETRY:
+            res[name].pop("_why", None)
+            res[name].update(out)
+        else:
+            res[name] = out
         print(name, out, "FALSE-ALARM" if 1 in out.values() else "", flush=True)
 json.dump(res, open("/verif/refactors/last_run.json", "w"), indent=1)
-vals = [v for v in res.values()]
+vals = [{c: rc for c, rc in v.items() if not c.startswith("_")} for v in res.values()]
 print(len(vals), "patches:", sum(1 for v in vals if 1 in v.values()), "false alarms,", sum(1 for v in vals if 2 in v.values() and 1 not in v.values()), "undecided,",
       sum(1 for v in vals if set(v.values()) <= {0}), "ok")
